@@ -1,11 +1,12 @@
 """C16 — query response metadata names each query's real response type."""
 import random
 
-from .. import casing, common as c, corpus, genbins, l2, translate
+from .. import casing, common as c, corpus, genbins, l2, translate, rs2lean
 
 THEOREMS = [("Sylvia.Thm.C16", "C16." + t) for t in
             ["responses_keys", "responses_value", "explicit_resp_wins", "contract_table_is_union", "contract_keys_are_query_names", "any_of_order"]]
 MSG_TY = {"exec": "ExecMsg", "query": "QueryMsg", "sudo": "SudoMsg"}
+THEOREMS = THEOREMS + [("Sylvia.Thm.RetTypeFn", "RetTypeFn." + x) for x in ["extract_spec", "extract_result", "extract_default"]]
 
 
 def run(ctx):
@@ -15,6 +16,11 @@ def run(ctx):
                         "explicit resp= with an aliased result type); generic / associated-type responses are covered at L1 by the `returns(..)` attributes of the C15/C17 facts streams",
                         "the `__phantom` entry of generic message types is not sendable (serde skips the variant) and is left out of the comparison"]
     translate.regenerate()
+    # function translator: extract_return_type of sylvia-derive/src/utils.rs -> Extracted/RetTypeFns.lean (the success type of the signature)
+    rt_problems = rs2lean.regenerate("rettype")
+    ctx.cov["function_translator_rettype"] = {"source": "sylvia-derive/src/utils.rs::extract_return_type", "problems": rt_problems}
+    if rt_problems:
+        ctx.obligation_failed("function-translator(rettype)", "; ".join(rt_problems)[:1500])
     c.prove(ctx, ["Sylvia.Thm.C16"], THEOREMS)
     progs, exes = l2.get_corpus(ctx)
     ops, expect = {}, {}
